@@ -7,7 +7,8 @@ S=/tmp/seedrun/$SID
 rm -rf $S; mkdir -p $S
 git -C /repo worktree add -q --detach $S/repo HEAD || exit 2
 git -C $S/repo apply /verif/seeded/$SID/patch.diff || { echo "patch does not apply"; git -C /repo worktree remove --force $S/repo; exit 2; }
-mkdir -p $S/kani && cp -r /verif/kani/src /verif/kani/Cargo.toml /verif/kani/Cargo.lock $S/kani/
+# harness crate as committed (HEAD), not the working copy that may be mid-edit
+mkdir -p $S/kani && git -C /verif archive HEAD kani/src kani/Cargo.toml | tar -x -C $S && cp /verif/kani/Cargo.lock $S/kani/
 sed -i "s|path = \"/repo\"|path = \"$S/repo\"|" $S/kani/Cargo.toml
 ( cd /verif && VCHECK_REPO=$S/repo VCHECK_KANI_DIR=$S/kani VCHECK_OUT=$S/out ./vcheck $PROP --tier $TIER ) > $S/log 2>&1
 rc=$?
